@@ -73,10 +73,70 @@ def contracts(reg):
             loops={0: dict(inv=["forall(j, range(0, _i - start), ens[j] == numpy.real(HH[j+start,j+start]) - subtract[j])"],
                            modifies=["ens"])},
             expose_locals=["ens", "sne", "kBT", "ne"]))
+    # callers execute the real body; the loop invariant is shared through this (never separately verified) entry
+    reg.add(Contract(AB + "AggregateBase._thermal_population", inline=True,
+                     loops={0: dict(inv=["forall(j, range(0, _i - start), ens[j] == numpy.real(HH[j+start,j+start]) - subtract[j])"],
+                                    modifies=["ens"])}))
     reg.add(Contract(AB + "AggregateBase._thermal_population#zero-temperature", setup=lambda S: setup(S, True, False), ghost=ghost,
                      requires=["n >= 1", "0 <= start < n"],
                      ensures=[("all-population-on-the-start-index",
                                "forall((a, b), (range(0, n), range(0, n)), result[a,b] == ite(a == start and b == start, 1, 0))")]))
+
+    # ---- thermal excited state, strong coupling: which energies define the site equilibrium ----------------------------------------------
+    # With a relaxation Hamiltonian supplied by the caller its energies are used as they are (documented: "no
+    # reorganization energies are subtracted"); without one the site reorganisation energies are subtracted from the
+    # aggregate's own Hamiltonian.  Stated relationally: the returned matrix is what _thermal_population gives for
+    # exactly those energies.
+    def dm_hook(ex, cinfo, args, kwargs, line):
+        if cinfo.name == "DensityMatrix":
+            return (Obj("DensityMatrix(stub)", {"data": kwargs.get("data", args[0] if args else None)}),)
+        return None
+    reg.models.hooks_instantiate.append(dm_hook)
+
+    def setup_dm(S, supplied):
+        n = S.int("n")
+        start = S.int("start")
+        reorg = S.array("reorg", (n,), "real")
+        sbi = S.obj("SystemBathInteraction(stub)", label="sbi",
+                    get_reorganization_energy=Builtin("sbi.get_reorganization_energy", lambda ex, a, k, l: reorg.get([a[0]])),
+                    has_temperature=Builtin("sbi.has_temperature", lambda ex, a, k, l: True),
+                    get_temperature=Builtin("sbi.get_temperature", lambda ex, a, k, l: S.leaves["temp"]))
+        own = S.obj("Hamiltonian(stub)", label="ownH", dim=n, data=S.array("Hown", (n, n), "cx"))
+        given = S.obj("Hamiltonian(stub)", label="givenH", dim=n, data=S.array("Hgiven", (n, n), "cx"))
+        nb = V.lam_array((2,), "int", lambda idx: z3.If(V.z3int(idx[0]) == 0, start, V.arith("-", n, start)))
+        me = S.obj(AB + "AggregateBase", label="self", _built=True, sbi=sbi, Nb=nb, rho0=None,
+                   get_Hamiltonian=Builtin("self.get_Hamiltonian", lambda ex, a, k, l: own))
+        temp = S.real("temp")
+        S.ex.assume(z3.And(n >= 2, start >= 1, start < n, temp > 0))
+        return dict(self=me, condition_type="thermal_excited_state", relaxation_theory_limit="strong_coupling",
+                    temperature=temp, relaxation_hamiltonian=(given if supplied else None), DD=None,
+                    n=n, start=start, reorg=reorg, Hown=own.fields["data"], Hgiven=given.fields["data"], temp=temp)
+
+    def capture(ex, finfo, args, kwargs, bound, line):
+        if finfo.name == "_thermal_population" and (ex.registry.under_proof or "").endswith("get_DensityMatrix"):
+            ex.captured_thermal_call = dict(kwargs, temp=args[0] if args else kwargs.get("temp"))
+        return None
+    reg.models.hooks_call.insert(0, capture)
+
+    def ghost_dm(S, env):
+        """what get_DensityMatrix handed to _thermal_population (ghost: recorded at the call)"""
+        c = getattr(S.ex, "captured_thermal_call", None)
+        if c is not None:
+            env["passed_subtract"] = c.get("subtract")
+            env["passed_hamiltonian"] = c.get("relaxation_hamiltonian")
+            env["passed_start"] = c.get("start")
+            env["passed_temp"] = c.get("temp")
+    for supplied in (True, False):
+        H_ = "Hgiven" if supplied else "Hown"
+        SUB = "0" if supplied else "ite(i < n - start, reorg[i], 0)"
+        reg.add(Contract(AB + "AggregateBase.get_DensityMatrix#strong-coupling-" + ("supplied-hamiltonian" if supplied else "own-hamiltonian"),
+                         setup=(lambda S, sup=supplied: setup_dm(S, sup)), ghost=ghost_dm, requires=[],
+                         ensures=[("equilibrium-formed-from-the-documented-hamiltonian",
+                                   "forall((a, b), (range(0, n), range(0, n)), passed_hamiltonian[a,b] == %s[a,b])" % H_),
+                                  ("reorganisation-energies-subtracted-exactly-as-documented",
+                                   "forall(i, range(0, n - start), passed_subtract[i] == %s)" % SUB),
+                                  ("excited-band-only-at-the-requested-temperature", "passed_start == start and passed_temp == temp"),
+                                  ("result-is-that-equilibrium", "result.data is self.rho0")]))
 
 
 def plan(ctx):
@@ -84,7 +144,9 @@ def plan(ctx):
     contracts(ctx.registry)
     p.functions = [AB + "AggregateBase._thermal_population#positive-temperature",
                    AB + "AggregateBase._thermal_population#positive-temperature-with-subtracted-energies",
-                   AB + "AggregateBase._thermal_population#zero-temperature"]
+                   AB + "AggregateBase._thermal_population#zero-temperature",
+                   AB + "AggregateBase.get_DensityMatrix#strong-coupling-supplied-hamiltonian",
+                   AB + "AggregateBase.get_DensityMatrix#strong-coupling-own-hamiltonian"]
     x, y = z3.Reals("x y")
     ef = lambda t: V.ufun("exp", t)      # noqa: E731
     p.extra_axioms = [V.ufun("exp", 0) == 1, z3.ForAll([x], ef(x) > 0, patterns=[ef(x)]),
